@@ -229,3 +229,90 @@ func init() {
 		}
 	})
 }
+
+// protobuf Marshal/Unmarshal (reflection based, not interpretable): an opaque
+// token round trip. Marshal snapshots the message (deep copy) and returns a
+// 5-byte token; Unmarshal of a token restores the snapshot. Code under test only
+// frames, stores and forwards these bytes. The native replay uses real protobuf.
+func deepCopyVal(v Value, memo map[*Value]*Value) Value {
+	switch v := v.(type) {
+	case Struct:
+		c := make(Struct, len(v))
+		for i := range v {
+			c[i] = deepCopyVal(v[i], memo)
+		}
+		return c
+	case Array:
+		c := make(Array, len(v))
+		for i := range v {
+			c[i] = deepCopyVal(v[i], memo)
+		}
+		return c
+	case []Value:
+		if v == nil {
+			return v
+		}
+		c := make([]Value, len(v))
+		for i := range v {
+			c[i] = deepCopyVal(v[i], memo)
+		}
+		return c
+	case *Value:
+		if v == nil {
+			return v
+		}
+		if m, ok := memo[v]; ok {
+			return m
+		}
+		n := new(Value)
+		memo[v] = n
+		*n = deepCopyVal(*v, memo)
+		return n
+	case Iface:
+		return Iface{T: v.T, V: deepCopyVal(v.V, memo)}
+	}
+	return v
+}
+
+func init() {
+	extraExternals = append(extraExternals, func(e *Engine) {
+		x := e.externals
+		marshal := func(p *Path, th *Thread, fr *frame, a []Value) Value {
+			it := a[len(a)-1].(Iface)
+			ptr, ok := it.V.(*Value)
+			if !ok || ptr == nil {
+				return Tuple{[]Value(nil), Iface{}}
+			}
+			if p.ghost == nil {
+				p.ghost = map[string]Value{}
+			}
+			tab, _ := p.ghost["protomsgs"].([]Value)
+			snap := deepCopyVal(*ptr, map[*Value]*Value{})
+			tab = append(tab, Tuple{it.T, snap})
+			p.ghost["protomsgs"] = tab
+			id := len(tab) - 1
+			tok := []Value{mkByte(0x50), mkByte(0x42), mkByte(byte(id >> 16)), mkByte(byte(id >> 8)), mkByte(byte(id))}
+			return Tuple{tok, Iface{}}
+		}
+		x["google.golang.org/protobuf/proto.Marshal"] = marshal
+		x["google.golang.org/protobuf/proto.Unmarshal"] = func(p *Path, th *Thread, fr *frame, a []Value) Value {
+			bs, okb := concreteBytes(a[0])
+			it := a[1].(Iface)
+			ptr, _ := it.V.(*Value)
+			if !okb || len(bs) != 5 || bs[0] != 0x50 || bs[1] != 0x42 || ptr == nil {
+				return p.eng.makeError(p, "proto: cannot parse invalid wire-format data", nil)
+			}
+			tab, _ := p.ghost["protomsgs"].([]Value)
+			id := int(bs[2])<<16 | int(bs[3])<<8 | int(bs[4])
+			if id >= len(tab) {
+				return p.eng.makeError(p, "proto: cannot parse invalid wire-format data", nil)
+			}
+			ent := tab[id].(Tuple)
+			if !types.Identical(ent[0].(types.Type), it.T) {
+				return p.eng.makeError(p, "proto: message type mismatch", nil)
+			}
+			store(ptr, deepCopyVal(ent[1], map[*Value]*Value{}))
+			return Iface{}
+		}
+	})
+}
